@@ -5,11 +5,12 @@ PROP = dict(
     extract=[],
     lean_targets=["Chewing.Props.C04"],
     runs=[dict(bin="comp")],
-    scope=comp_scope("comp", "ced"),
+    scope=comp_scope("comp", "cedi"),
     level="proof",
     exhaustive=False,
     rule="one evaluation = one call of a public method of the real Composition / CompositionEditor, recomputed by the "
-         "model from the implementation's own pre-state (result selections compared as a sorted multiset); "
+         "model from the implementation's own pre-state (`comp` records; `cedi` = the inner composition after a "
+         "CompositionEditor call; result selections compared as a sorted multiset); "
          "distinct = distinct record text; preconditions-violating calls are generated in separate sessions",
     trusted_base=["no kernel enumeration: all theorems are structural (simp/omega over lists)"],
     assumptions=["component level (DESIGN §12 stage A): Composition and CompositionEditor only; the lift through the "
